@@ -464,7 +464,15 @@ async fn main() {
         "block-id-jump",
     ] {
         let case = descs.len();
-        let (sim, desc) = scripted(name, case, &mut summary).await;
+        let r = futures_catch(AssertUnwindSafe(scripted(name, case, &mut summary))).await;
+        let (sim, desc) = match r {
+            Ok(x) => x,
+            Err(msg) => {
+                let desc = format!("{{\"case\":{},\"kind\":\"scripted\",\"scenario\":\"{}\"}}", case, name);
+                summary.oracle_failure(case, &format!("scenario {} could not be carried out on this tree: {}", name, msg), &desc);
+                (Sim::new(3, 8, 2, &[(0, 1000)], 1).await, desc)
+            }
+        };
         coq_cases.push(sim.history_literal());
         descs.push(desc);
         keys.push(format!("scripted:{}", name));
